@@ -85,7 +85,7 @@ inline void prove_all(const std::string &name, const std::vector<F> &fs) {
     symx::s_prove_all(name,fs); }
 inline void require(const std::string &name, bool ok, const std::string &detail="") {
     if (concrete()) { st().dbl_obligations++; if (!ok) fail_concrete(name,detail); return; }
-    symx::s_require(name,ok,detail); }
+    symx::s_require(name,ok,detail); if (symx::ctx().infeasible_now) throw symx::infeasible(); }
 #else
 inline F eq(scalar a, scalar b) { double sc=std::max(1.0,std::max(std::fabs(a),std::fabs(b))); return F{ std::fabs(a-b) <= st().tol*sc }; }
 inline F ne(scalar a, scalar b) { return F{ a!=b }; }
